@@ -94,7 +94,15 @@ def explore_spec(acc, spec, hname, bound):
         if env.deviations():
             acc.add('nontrivial', (spec.kind, spec.request, hname, spec.tid0, spec.split, spec.roi, tuple(env.choices)))
         judge(acc, spec, hname, env, sim, recs, hang)
-    st = choice.explore(run, bound, horizon=300, on_exec=on_exec)
+    try:
+        st = choice.explore(run, bound, horizon=300, on_exec=on_exec)
+    except choice.ReplayDivergence as e:
+        # the same environment answers did not lead to the same execution: a FRESH client object behaved
+        # differently because of what earlier client objects of this process did (state kept outside the client)
+        acc.violation('C08/%s/state-carried-over/%s/main' % (spec.kind, hname),
+                      dict(client=spec.kind, request=spec.request, retries=spec.retries, roe=spec.roe, roi=spec.roi, diverged=str(e)[:120]),
+                      'a fresh client did not repeat the execution it showed for the same environment answers: %s' % e, spec.kind)
+        return dict(executions=0, points=0)
     acc.inc('states', st['executions'])
     return st
 
@@ -135,6 +143,10 @@ def run(tier, seed):
 
 
 def replay(w):
+    if 'diverged' in w:
+        a2 = shard((w['client'], w['request'], 'quick'))
+        vs = [v for v in a2.violations if 'diverged' in v['witness']]
+        return bool(vs), '\n'.join(v['msg'] for v in vs) or 'no divergence this time'
     acc = Acc()
     spec = clientsim.Spec(w['client'], w['request'], retries=3, retry_on_invalid=w['roi'], retry_on_empty=w['roi'], history=HISTORIES[w['history']],
                           tid0=w['tid0'], peer_menu=PEER, read_menu=['full'], send_menu=['ok'], split=w['split'])
